@@ -136,6 +136,7 @@ fn strat(t: Tier) -> proptest::strategy::BoxedStrategy<RawCase> {
 
 pub fn def() -> PropertyDef {
     PropertyDef {
+        fuzz_targets: &["c04_history"],
         id: "C04",
         level: "exploration",
         rule: "call histories over build / write_video / write_video_with_dts / write_audio / encode_video / encode_audio / finish (5 forms) with \
